@@ -67,6 +67,7 @@ def run(ctx):
                           f.loc(t["sp"]), fn=f.name)
     ctx.floor(R1, "streamname::encode call sites", n, 9)
     name_limit(ctx, R1)
+    name_reserved(ctx, R1)
 
     R2 = "NAME-2"
     ctx.rule(R2, "Streams::next skips non-stream entries, every *_STREAM_NAME constant of streamname.rs, and every entry whose decoded name is a table")
@@ -207,6 +208,61 @@ def name_limit(ctx, R1="NAME-1"):
 
 
 
+def name_reserved(ctx, R1="NAME-1"):
+    """is_valid refuses the characters a container entry name cannot hold and the code points the packing itself produces"""
+    from ..lib import lifted_closures
+    prog = ctx.prog
+    f = prog.fn(SN + "is_valid")
+    S = Sym(prog, f)
+    cs = symcalls(prog, f, S)
+    en = [c for c in cs if c[1] == SN + "encode"]
+    # the acceptance path is on the `no reserved character` edge of a scan over the name's characters
+    scans = [c for c in cs if re.search(r"Iterator>?::(any|all|find|position)$", c[1]) and "chars(" in c[2][0]]
+    pred = None
+    guard = False
+    for c in scans:
+        kind = c[1].rsplit("::", 1)[-1]
+        want = {"any": False, "all": True}.get(kind)
+        if en and want is not None and any(("call@%d:" % c[0]) in e and tr is want for (e, tr, g) in S.bool_facts_at(en[0][0])):
+            guard = True
+            m = re.fullmatch(r"fn:(.*)", c[2][1])
+            if m:
+                pred = prog.fn("msi::" + m.group(1)) if ("msi::" + m.group(1)) in prog.by_name else None
+            else:
+                for L in lifted_closures(prog, f, S):
+                    if L.call_block == c[0]:
+                        pred = L.fn
+    ctx.check(guard and pred is not None, R1, "is_valid: acceptance only after a scan of the name for reserved characters", "", "streamname::is_valid accepts a name without scanning it for "
+              "reserved characters: `\\`, `:` and `!` make the compound-file layer panic, `/` is taken as a path separator (\"/a\" is stored as \"a\"), and a character from the "
+              "range the packing itself produces is listed under a different name", f.loc(), fn=f.name, key=R1 + "|reserved-scan")
+    if pred is None:
+        return
+    consts = set()
+    Sp = Sym(prog, pred)
+    for g in prog.unit(pred):
+        Sg = Sp if g is pred else Sym(prog, g)
+        for bl in g.blocks:
+            if bl["cleanup"]:
+                continue
+            t = bl["term"]
+            if t["t"] == "switch":
+                consts |= {v for v, tg in t["cases"] if v > 1}
+            if t["t"] == "call":
+                for a in t["args"]:
+                    consts |= {int(x) for x in re.findall(r"c:(\d+)", Sg.val(a))}
+            for st in bl["stmts"]:
+                if st["rhs"]["rv"] == "bin":
+                    for o in st["rhs"]["ops"]:
+                        if o.get("k") == "const" and "int" in o:
+                            consts.add(o["int"])
+    need = {0x2f, 0x5c, 0x3a, 0x21, 0x3800}
+    hi_ok = (0x4840 in consts) != (0x483f in consts)
+    extra = {c_ for c_ in consts if c_ > 1} - need - {0x4840, 0x483f}
+    ctx.check(need <= consts and hi_ok and not extra, R1, "is_valid: the reserved characters are / \\ : ! and U+3800..U+483F", str(sorted(hex(c_) for c_ in consts if c_ > 1)),
+              "the reserved-character test of streamname::is_valid works with the constants %s; a container entry name cannot hold / \\ : ! (0x2f 0x5c 0x3a 0x21) and the packing "
+              "produces exactly U+3800..U+483F (U+4840 is the table marker, legal inside a name)" % sorted(hex(c_) for c_ in consts if c_ > 1), pred.loc(), fn=pred.name, key=R1 + "|reserved-set")
+
+
 def name4(ctx, rule="NAME-4"):
     prog = ctx.prog
     ctx.rule(rule, "write_stream obtains its stream from create_stream only (which truncates an existing stream), read_stream from open_stream only, remove_stream calls the "
@@ -283,6 +339,17 @@ def b64_tables(ctx, rule="B64-TABLE"):
     S = Sym(prog, f)
     cs = symcalls(prog, f, S)
     fu = [a[0] for b, n, a, t in cs if n.endswith("char::from_u32")]
+
+    def _expand(v, depth=0):
+        # a value chosen by a match/if and stored in one local (`let encoded = match .. { .. => A, .. => B }`): the values of its assignments
+        m_ = re.fullmatch(r"_(\d+)", v)
+        if not m_ or depth > 3:
+            return [v]
+        out_ = []
+        for d_ in S.du.whole_defs(int(m_.group(1))):
+            out_ += _expand(S._def_val(d_, int(m_.group(1)), 0), depth + 1)
+        return out_ or [v]
+    fu = [y for x in fu for y in _expand(x)]
     pair = [x for x in fu if re.fullmatch(r"\(\(c:14336 Add! \(call@(\d+):internal::streamname::to_b64@Some\.0 Shl c:6\)\)\.0 Add! call@(\d+):internal::streamname::to_b64@Some\.0\)\.0", x)]
     single = [x for x in fu if re.fullmatch(r"\(c:18432 Add! call@\d+:internal::streamname::to_b64@Some\.0\)\.0", x)]
     okp = len(pair) == 1 and len(single) == 1 and len(fu) == 2
@@ -357,7 +424,7 @@ def b64_tables(ctx, rule="B64-TABLE"):
             m = re.search(r"RangeInclusive", e)
         if lo is None:
             from .panic import _bounds_from_facts
-            vm = re.search(r"\(call@\d+:<std::iter::Peekable<I> as std::iter::Iterator>::next@Some\.0 as u32\)", a0)
+            vm = re.search(r"\(call@\d+:<[^()]*Iterator>::next@Some\.0 as u32\)", a0)
             if vm:
                 lo, hi = _bounds_from_facts(S.bool_facts_at(b), vm.group(0))
         ivs.append((lo, hi))
@@ -366,7 +433,7 @@ def b64_tables(ctx, rule="B64-TABLE"):
               "0x4800..=0x483f for the single one (the images of encode; U+4840 is the table marker)" % [(lo is not None and hex(lo), hi is not None and hex(hi)) for lo, hi in ivs], f.loc(), fn=f.name,
               key=rule + "|decode-ranges")
     fb = [a[0] for b, n, a, t in cs if n == SN + "from_b64"]
-    v = r"\(call@\d+:<std::iter::Peekable<I> as std::iter::Iterator>::next@Some\.0 as u32\)"
+    v = r"\(call@\d+:<[^()]*Iterator>::next@Some\.0 as u32\)"
     okd = len(fb) == 3 and re.fullmatch(r"\(\(%s Sub! c:14336\)\.0 BitAnd c:63\)" % v, fb[0]) and re.fullmatch(r"\(\(%s Sub! c:14336\)\.0 Shr c:6\)" % v, fb[1]) and \
         re.fullmatch(r"\(%s Sub! c:18432\)\.0" % v, fb[2])
     ctx.check(bool(okd), rule, "decode unpacking", "low six bits, then >> 6; single: - 0x4800", "decode unpacks %s" % [x[-40:] for x in fb], f.loc(), fn=f.name, key=rule + "|decode")
@@ -379,5 +446,5 @@ def b64_tables(ctx, rule="B64-TABLE"):
         ctx.check(not cycle_without(f, h, body, dpush & body), rule, "decode emits something for every stored character", "", "an iteration of streamname::decode's loop can finish without "
                   "pushing anything: that character disappears from the decoded name", f.loc(), fn=f.name, key=rule + "|decode-every")
     pk = [a for b, n, a, t in cs if n.endswith("Peekable::<I>::peek")]
-    nie = [a for b, n, a, t in cs if n.endswith("Peekable::<I>::next_if_eq") and "c:18496" in a[1]]
+    nie = [a for b, n, a, t in cs if (n.endswith("Peekable::<I>::next_if_eq") or n.endswith("<impl str>::strip_prefix")) and "c:18496" in a[1]]
     ctx.check((len(pk) == 1 and not nie) or (len(nie) == 1 and not pk), rule, "decode strips one leading marker", "", "decode peeks %d times / next_if_eq(marker) %d times" % (len(pk), len(nie)), f.loc(), fn=f.name)
